@@ -13,7 +13,7 @@
 (*  - the STRICT comparison "observed state = state computed by the        *)
 (*    concrete operators" only increments the drift counter (register 42). *)
 (***************************************************************************)
-EXTENDS HbSetOps, Json, IOUtils, TLCExt, SequencesExt
+EXTENDS HbTableOps, Json, IOUtils, TLCExt, SequencesExt
 
 Rec == ndJsonDeserialize(IOEnv.TRACE)
 \* the property this validation run decides (C01 ... C20); "ALL" = every check is decisive
@@ -34,10 +34,10 @@ OpProp(op, kind) ==
   {"C18"} \cup
   (IF op \in EntryOps THEN {"C14"} \cup KindProp(kind)
    ELSE IF op \in RawEntryOps THEN {"C14"}
-   ELSE IF op \in {"retain", "extract_if", "drain"} THEN {"C10"} \cup KindProp(kind)
+   ELSE IF op \in {"retain", "extract_if", "t_extract_if", "drain"} THEN {"C10"} \cup KindProp(kind)
    ELSE IF op \in {"iter", "into_iter"} THEN {"C09"}
    ELSE IF op \in {"clone", "clone_from", "eq"} THEN {"C11"} \cup (IF kind = "set" /\ op = "eq" THEN {"C07"} ELSE {})
-   ELSE IF op \in {"get_many_mut", "get_many_kv_mut"} THEN {"C15"} \cup KindProp(kind)
+   ELSE IF op \in {"get_many_mut", "get_many_kv_mut", "t_get_many_mut"} THEN {"C15"} \cup KindProp(kind)
    ELSE IF op \in {"s_entry_insert", "s_entry_or_insert", "s_entry_remove", "s_entry_get", "s_entry_into_value"} THEN {"C14", "C07"}
    ELSE IF op = "try_reserve" THEN {"C12", "C08"}
    ELSE IF op \in {"reserve", "shrink_to", "shrink_to_fit", "with_capacity", "new"} THEN {"C08"} \cup KindProp(kind)
@@ -122,6 +122,24 @@ GetManyAbs(e, A, obs) ==
                                 ELSE e.r[N + i] = -1
              /\ \A i, j \in 1..N : (i # j /\ present(i) /\ present(j)) => e.r[N + i] # e.r[N + j])
 
+\* HashTable::get_many_mut with (possibly sloppy) closures: e.ks classes, e.j = 1 => closure i also accepts class+1;
+\* e.r = flags ++ bucket indices ++ classes of the returned elements
+TGetManyAbs(e, A, pre, h0, tr) ==
+  LET N == Len(e.ks)
+      acc(i) == {e.ks[i]} \cup (IF e.j = 1 THEN {e.ks[i] + 1} ELSE {})
+      found == {i \in 1..N : e.r[i] = 1}
+      upd == {pre.data[e.r[N + i]] : i \in found}
+      newA == IF tr THEN (A \ upd) \cup {SetV(pre.data[e.r[N + i]], e.v + (i - 1)) : i \in found} ELSE A
+  IN IF e.pn = "dup"
+     THEN AR(A, {}, \E i, j \in 1..N : i # j /\ \E x \in A : x[1] \in acc(i) \cap acc(j))
+     ELSE IF e.pn # "" \/ Len(e.r) # 3 * N THEN AR(A, {}, FALSE)
+     ELSE AR(newA, {},
+             /\ \A i \in 1..N : e.r[i] \in {0, 1}
+             /\ \A i \in found : /\ e.r[N + i] \in FullIdx(pre)
+                                  /\ pre.data[e.r[N + i]][1] \in acc(i) /\ e.r[2 * N + i] = pre.data[e.r[N + i]][1]
+             /\ \A i \in (1..N) \ found : e.r[N + i] = -1 /\ WithHash({x \in A : x[1] \in acc(i)}, h0[e.ks[i]]) = {}
+             /\ \A i, j \in found : i # j => e.r[N + i] # e.r[N + j])
+
 ---------------------------------------------------------------------------
 Init == /\ l = 1
         /\ hd = [W |-> W]
@@ -165,6 +183,8 @@ OpStep(e) ==
       obsT == [i \in 1..hd.nt |-> ObsTable(e.s[i], hd.es)]
       obsX == [i \in 1..hd.nt |-> ObsX(e.s[i])]
       ph == PlanFn(hd, prex.pl)
+      \* HashTable: the hash the caller supplied (plan e.n of the class; untracked elements always use plan 0)
+      hq == IF hd.kind = "table" /\ e.k >= 0 THEN PlanFn(hd, IF hd.tr = 1 /\ e.n = 1 THEN 1 ELSE 0)[e.k] ELSE [pos |-> 0, tag |-> 0]
       \* ---------- abstract step
       absr ==
         CASE e.op = "iter" -> AR(A, {}, IterOK(e, pre, A))
@@ -175,6 +195,14 @@ OpStep(e) ==
           [] e.op = "xor_assign" -> AR(A, {z[2] : z \in {w \in A : w[1] \in Cls(A2)}}, e.pn = "")
           [] e.op \in OpForms -> AR(A, AllIds(ab[3]), e.pn = "")
           [] hd.kind = "set" -> AbsSetOp(e, A, A2, ph)
+          [] e.op = "t_get_many_mut" -> TGetManyAbs(e, A, pre, PlanFn(hd, 0), hd.tr = 1)
+          [] e.op = "t_entry_insert" /\ e.r[1] = 1 ->
+               LET N == Elems(obsT[t])
+                   ne == MkElem(e.k, e.id, e.v, 0, hq)
+                   X == {x \in Cands(A, e.k) : N = (A \ {x}) \cup {ne}}
+               IN IF X = {} THEN AR(A, {}, FALSE)
+                  ELSE LET x == CHOOSE x \in X : TRUE IN AR(N, {x[2]}, e.pn = "" /\ e.r = <<1, e.id, e.v>>)
+          [] hd.kind = "table" -> AbsTableOp(e, A, pre, hq)
           [] OTHER -> AbsMapOp(e, A, A2, ph)
       newAb == [i \in 1..hd.nt |->
                   IF e.op = "clone" /\ i = u THEN Elems(obsT[u])
@@ -259,7 +287,7 @@ OpStep(e) ==
           [] OTHER -> TRUE
       chkPanic == e.pn \in {"", "index", "dup", "noteq"}
       opp == OpProp(e.op, hd.kind)
-      invd == UNION {InvDiag(obsT[i], FALSE, TRUE) : i \in {j \in 1..hd.nt : lvAfter(j)}}
+      invd == UNION {InvDiag(obsT[i], FALSE, hd.kind # "table") : i \in {j \in 1..hd.nt : lvAfter(j)}}
       invStruct == invd \cap {"I1 shape", "I2 mirror bytes", "I3 items = number of FULL bytes", "I4 an EMPTY bucket exists",
                               "I5 growth_left accounting", "I9 FULL <=> slot holds an element"}
       invFind == invd \ invStruct
@@ -285,6 +313,13 @@ OpStep(e) ==
                [pre EXCEPT !.data = [i \in 0..pre.mask |-> IF pre.data[i] \in A /\ pre.data[i] \notin absr.A
                                                           THEN CHOOSE y \in absr.A : y[1] = pre.data[i][1] ELSE pre.data[i]]]
           [] hd.kind = "set" -> SetOp(e, pre, IF u >= 1 /\ u <= Len(tb) THEN tb[u] ELSE pre, ph, LawfulEnv).t
+          [] e.op = "t_get_many_mut" ->
+               IF e.pn # "" \/ hd.tr = 0 THEN pre
+               ELSE LET N == Len(e.ks)
+                    IN [pre EXCEPT !.data = [i \in 0..pre.mask |->
+                          IF \E q \in 1..N : e.r[q] = 1 /\ e.r[N + q] = i
+                          THEN SetV(pre.data[i], e.v + ((CHOOSE q \in 1..N : e.r[q] = 1 /\ e.r[N + q] = i) - 1)) ELSE pre.data[i]]]
+          [] hd.kind = "table" -> TableOp(e, pre, hq, LawfulEnv).t
           [] OTHER -> MapOp(e, pre, ph, LawfulEnv).t
       strictOK ==
         CASE e.op = "drop" -> TRUE
